@@ -720,6 +720,17 @@ func (fr *Frame) execInvoke(st *State, c *ssa.CallCommon, recv Val, args []Val, 
 		return fr.havocCall(st, append([]Val{recv}, args...), resT, sanitize(c.Method.Name()))
 	}
 	sort.Slice(impls, func(i, j int) bool { return typeKey(impls[i]) < typeKey(impls[j]) })
+	// dynamic type fixed by a precondition "requires dyn(p) == T": single arm
+	for _, mv := range g.params {
+		if mv.Term == recv.S {
+			if kt, ok := g.knownDyn[mv.Name]; ok && fr.top {
+				if m := g.P.methodOf(kt, c.Method.Name(), c.Method.Pkg()); m != nil {
+					rv := Val{T: kt, S: g.define("rcv", g.S.sortOf(kt), g.S.unbox(kt, recv.S))}
+					return fr.callStatic(st, m, append([]Val{rv}, args...), nil, resT)
+				}
+			}
+		}
+	}
 	type arm struct {
 		cond string
 		st   *State
